@@ -400,6 +400,8 @@ void splinetable<Alloc>::write_fits(const std::string& filePath) const{
 		fitsfile* fits;
 		fits_cleanup(fitsfile* f):fits(f){}
 		~fits_cleanup(){
+			if(!fits)
+				return;
 			int error=0;
 			fits_close_file(fits, &error);
 			fits_report_error(stderr, error);
@@ -407,6 +409,15 @@ void splinetable<Alloc>::write_fits(const std::string& filePath) const{
 	} cleanup(fits);
 	
 	write_fits_core(fits);
+	
+	//Data may still sit in cfitsio's (and the OS's) buffers; a failure to flush
+	//or close the file must not pass for a successful write.
+	cleanup.fits=nullptr;
+	fits_close_file(fits, &error);
+	if (error != 0){
+		fits_report_error(stderr, error);
+		throw std::runtime_error("CFITSIO failed to write "+filePath+" completely: Error "+std::to_string(error));
+	}
 }
 	
 template<typename Alloc>
@@ -428,6 +439,8 @@ std::pair<void*,size_t> splinetable<Alloc>::write_fits_mem() const{
 			fitsfile* fits;
 			fits_cleanup(fitsfile* f):fits(f){}
 			~fits_cleanup(){
+				if(!fits)
+					return;
 				int error=0;
 				fits_close_file(fits, &error);
 				fits_report_error(stderr, error);
@@ -435,6 +448,13 @@ std::pair<void*,size_t> splinetable<Alloc>::write_fits_mem() const{
 		} cleanup(fits);
 		
 		write_fits_core(fits);
+		
+		cleanup.fits=nullptr;
+		fits_close_file(fits, &error);
+		if (error != 0){
+			fits_report_error(stderr, error);
+			throw std::runtime_error("CFITSIO failed to complete the file: Error "+std::to_string(error));
+		}
 	}catch(std::exception& ex){
 		throw std::runtime_error("Failed to write FITS memory 'file': \n"+std::string(ex.what()));
 	}
